@@ -43,7 +43,7 @@ from enum import Enum
 import numpy as np
 
 from ._libtoasty import subsample, mid
-from .image import Image
+from .image import Image, get_format_vertical_parity_sign
 from .progress import progress_bar
 from .pyramid import Pos, tiles_at_depth
 
@@ -735,7 +735,7 @@ def sample_layer_filtered(
     from .pyramid import Pyramid
 
     p = Pyramid.new_toast_filtered(depth, tile_filter, coordsys=coordsys)
-    proc = ToastSampler(pio, sampler, False, format=format, coordsys=coordsys)
+    proc = ToastSampler(pio, sampler, False, coordsys=coordsys)
     p.visit_leaves(proc.visit_callback, parallel=parallel, cli_progress=cli_progress)
 
 
@@ -780,7 +780,13 @@ class ToastSampler(object):
         self._clobber = clobber
         self._format = format
         self._coordsys = coordsys
-        self._invert_into_tiles = pio.get_default_vertical_parity_sign() == 1
+
+        # The row order must match the format that the tiles are actually
+        # written in, which is the override when there is one.
+        if format is None:
+            self._invert_into_tiles = pio.get_default_vertical_parity_sign() == 1
+        else:
+            self._invert_into_tiles = get_format_vertical_parity_sign(format) == 1
 
     def visit_callback(self, pos, tile):
         if tile is None:
